@@ -83,6 +83,8 @@ type replayCase struct {
 	File    string `json:"file,omitempty"`
 	Content string `json:"content,omitempty"` // hex
 	Len     int    `json:"len,omitempty"`
+	// multi: a history of starts, several of them inside one helper process, over two directories
+	Multi []mstep `json:"multi,omitempty"`
 	// fault: a start / ticket checkpoint with every file write limited to Limit bytes
 	Fault string            `json:"fault,omitempty"` // restart | first | tickets
 	Args  map[string]string `json:"args,omitempty"`
@@ -401,65 +403,18 @@ func (c *checker) serverScenario(sc scenario, only *replayCase, rng *vlib.Rng) {
 		}
 
 		// ---- S: restart oracle
+		cur = c.restartOracle(cur, st, rep, fmt.Sprintf("start %d", si), rcase)
 		explicit := st.Args["node-id"] != "" && st.Args["private-key"] != "" && st.Args["drbg-seed"] != ""
-		iatArg, hasIAT := st.Args["iat-mode"]
-		iatValid := !hasIAT || iatArg == "0" || iatArg == "1" || iatArg == "2"
-		argKeysOnlyIAT := true
-		for k := range st.Args {
-			if k != "iat-mode" {
-				argKeysOnlyIAT = false
-			}
-		}
-		switch {
-		case explicit && iatValid && oracleCert(st.Args["node-id"], st.Args["private-key"]) != "" && validSeed(st.Args["drbg-seed"]):
-			want := presented{oracleCert(st.Args["node-id"], st.Args["private-key"]), "0"}
-			if hasIAT {
-				want.IAT = iatArg
-			}
-			if !rep.OK || rep.Cert != want.Cert || rep.IAT != want.IAT {
-				c.r.Violate("explicit-identity-not-presented", "impl-oracle",
-					fmt.Sprintf("start %d with explicit node-id/private-key/drbg-seed presents %s, expected cert=%s iat-mode=%s", si, implNext(rep), want.Cert, want.IAT), rcase)
-			}
-			if rep.OK {
-				cur = &presented{rep.Cert, rep.IAT}
-			}
-		case argKeysOnlyIAT && iatValid && cur != nil:
-			want := *cur
-			if hasIAT {
-				want.IAT = iatArg
-				c.r.Count("iat_override_transition", cur.IAT+"->"+iatArg)
-			}
-			if !rep.OK {
-				c.r.Violate("restart-fails-with-persisted-identity", "impl-oracle",
-					fmt.Sprintf("start %d (args %v) from a directory holding a persisted identity fails: %s", si, st.Args, rep.Err), rcase)
-			} else if rep.Cert != want.Cert {
-				c.r.Violate("restart-presents-different-identity", "impl-oracle",
-					fmt.Sprintf("start %d presents cert=%s, the persisted identity is cert=%s", si, rep.Cert, want.Cert), rcase)
-			} else if rep.IAT != want.IAT {
-				c.r.Violate("iat-mode-not-kept", "impl-oracle",
-					fmt.Sprintf("start %d (args %v; the directory held iat-mode=%s) presents iat-mode=%s, expected %s (the override if given, else the persisted value)", si, st.Args, cur.IAT, rep.IAT, want.IAT), rcase)
-			}
-			if rep.OK {
-				cur = &presented{rep.Cert, rep.IAT}
-			}
-		case argKeysOnlyIAT && iatValid && cur == nil:
-			if rep.OK {
-				cur = &presented{rep.Cert, rep.IAT}
-			}
-		default:
-			// invalid / partial arguments: the property says nothing about the outcome, but a
-			// persisted identity must survive (checked by the following starts)
-			if rep.OK && cur != nil && !explicit {
-				cur = &presented{cur.Cert, rep.IAT}
-			}
-		}
+		_ = explicit
 		// ---- S: what this start presents = what it leaves behind = what the next start presents
 		if rep.OK {
-			c.consistency(sc, si, st, rep, after)
+			trunc := scenario{Kind: sc.Kind, Steps: append([]step(nil), sc.Steps[:si+1]...)}
+			c.consistency(replayCase{Type: "sequence", Scenario: &trunc, Step: si}, fmt.Sprintf("start %d (args %v, %s)", si, st.Args, map[bool]string{true: "first start on an empty directory", false: "restart"}[si == 0]), si == 0, st, rep, after)
 		}
 		// ---- S: a refused start must not change what later starts present
 		if !rep.OK && cur != nil {
-			c.refusedProbe(sc, si, st, rep, before, after, *cur)
+			trunc := scenario{Kind: sc.Kind, Steps: append([]step(nil), sc.Steps[:si+1]...)}
+			c.refusedProbe(replayCase{Type: "sequence", Scenario: &trunc, Step: si}, fmt.Sprintf("start %d", si), st, rep, before, after, *cur)
 		}
 		if rep.OK && !reflect.DeepEqual(rep.Keys, []string{"cert", "iat-mode"}) {
 			c.r.Violate("advertised-arguments-changed", "impl-oracle", fmt.Sprintf("Args() has keys %v", rep.Keys), rcase)
@@ -522,15 +477,70 @@ func (c *checker) serverScenario(sc scenario, only *replayCase, rng *vlib.Rng) {
 }
 
 // validSeed: drbg.SeedFromHex accepts any hex text of at least 24 bytes (and truncates it).
+// restartOracle: the restart clause for one start, given what the directory's persisted identity
+// presents (cur, nil if nothing is persisted yet); returns the new value of cur.
+func (c *checker) restartOracle(cur *presented, st step, rep reply, label string, rcase replayCase) *presented {
+	explicit := st.Args["node-id"] != "" && st.Args["private-key"] != "" && st.Args["drbg-seed"] != ""
+	iatArg, hasIAT := st.Args["iat-mode"]
+	iatValid := !hasIAT || iatArg == "0" || iatArg == "1" || iatArg == "2"
+	argKeysOnlyIAT := true
+	for k := range st.Args {
+		if k != "iat-mode" {
+			argKeysOnlyIAT = false
+		}
+	}
+	switch {
+	case explicit && iatValid && oracleCert(st.Args["node-id"], st.Args["private-key"]) != "" && validSeed(st.Args["drbg-seed"]):
+		want := presented{oracleCert(st.Args["node-id"], st.Args["private-key"]), "0"}
+		if hasIAT {
+			want.IAT = iatArg
+		}
+		if !rep.OK || rep.Cert != want.Cert || rep.IAT != want.IAT {
+			c.r.Violate("explicit-identity-not-presented", "impl-oracle",
+				fmt.Sprintf("%s with explicit node-id/private-key/drbg-seed presents %s, expected cert=%s iat-mode=%s", label, implNext(rep), want.Cert, want.IAT), rcase)
+		}
+		if rep.OK {
+			cur = &presented{rep.Cert, rep.IAT}
+		}
+	case argKeysOnlyIAT && iatValid && cur != nil:
+		want := *cur
+		if hasIAT {
+			want.IAT = iatArg
+			c.r.Count("iat_override_transition", cur.IAT+"->"+iatArg)
+		}
+		if !rep.OK {
+			c.r.Violate("restart-fails-with-persisted-identity", "impl-oracle",
+				fmt.Sprintf("%s (args %v) from a directory holding a persisted identity fails: %s", label, st.Args, rep.Err), rcase)
+		} else if rep.Cert != want.Cert {
+			c.r.Violate("restart-presents-different-identity", "impl-oracle",
+				fmt.Sprintf("%s presents cert=%s, the persisted identity is cert=%s", label, rep.Cert, want.Cert), rcase)
+		} else if rep.IAT != want.IAT {
+			c.r.Violate("iat-mode-not-kept", "impl-oracle",
+				fmt.Sprintf("%s (args %v; the directory held iat-mode=%s) presents iat-mode=%s, expected %s (the override if given, else the persisted value)", label, st.Args, cur.IAT, rep.IAT, want.IAT), rcase)
+		}
+		if rep.OK {
+			cur = &presented{rep.Cert, rep.IAT}
+		}
+	case argKeysOnlyIAT && iatValid && cur == nil:
+		if rep.OK {
+			cur = &presented{rep.Cert, rep.IAT}
+		}
+	default:
+		// invalid / partial arguments: the property says nothing about the outcome, but a
+		// persisted identity must survive (checked by the following starts)
+		if rep.OK && cur != nil && !explicit {
+			cur = &presented{cur.Cert, rep.IAT}
+		}
+	}
+	return cur
+}
+
 // consistency: a successful start must (a) honour a valid iat-mode argument, (b) run with the
 // mode it advertises, (c) leave a state file that describes exactly the advertised identity,
 // (d) leave a bridge-line file with exactly the advertised client arguments, and (e) be followed
 // by a plain start (probed on a copy of the directory) that presents the same cert and iat-mode.
-func (c *checker) consistency(sc scenario, si int, st step, rep reply, after map[string][]byte) {
-	trunc := scenario{Kind: sc.Kind, Steps: append([]step(nil), sc.Steps[:si+1]...)}
-	rc := replayCase{Type: "sequence", Scenario: &trunc, Step: si,
-		Note: fmt.Sprintf("start %d (args %v) presents cert=%s iat-mode=%s; compared with the state file / bridge-line file it leaves and with the next start without arguments", si, st.Args, rep.Cert, rep.IAT)}
-	who := fmt.Sprintf("start %d (args %v, %s)", si, st.Args, map[bool]string{true: "first start on an empty directory", false: "restart"}[si == 0])
+func (c *checker) consistency(rc replayCase, who string, first bool, st step, rep reply, after map[string][]byte) {
+	rc.Note = fmt.Sprintf("%s presents cert=%s iat-mode=%s; compared with the state file / bridge-line file it leaves and with the next start without arguments", who, rep.Cert, rep.IAT)
 	if v, ok := st.Args["iat-mode"]; ok && (v == "0" || v == "1" || v == "2") && rep.IAT != v {
 		c.r.Violate("iat-override-not-applied", "impl-oracle",
 			fmt.Sprintf("%s advertises iat-mode=%s although iat-mode=%s was requested", who, rep.IAT, v), rc)
@@ -568,7 +578,7 @@ func (c *checker) consistency(sc scenario, si int, st step, rep reply, after map
 	}
 	c.r.Case(fmt.Sprintf("consistency|%s|%v", dirText(after), st.Args), true)
 	c.r.Validated(1)
-	c.r.Count("presented_vs_next", map[bool]string{true: "first-start", false: "restart"}[si == 0]+":"+argClass(st.Args))
+	c.r.Count("presented_vs_next", map[bool]string{true: "first-start", false: "restart"}[first]+":"+argClass(st.Args))
 	if !probe.OK || probe.Cert != rep.Cert || probe.IAT != rep.IAT {
 		c.r.Violate("next-start-presents-different-arguments", "impl-oracle",
 			fmt.Sprintf("%s presents cert=%s iat-mode=%s but the next start without arguments presents %s", who, rep.Cert, rep.IAT,
@@ -586,10 +596,8 @@ func validSeed(s string) bool {
 // so a plain start from the directory as the refused start left it (probed on a copy) must
 // succeed and present exactly what was presented before, IAT mode included; and the persisted
 // record itself must be untouched.
-func (c *checker) refusedProbe(sc scenario, si int, st step, rep reply, before, after map[string][]byte, cur presented) {
-	trunc := scenario{Kind: sc.Kind, Steps: append([]step(nil), sc.Steps[:si+1]...)}
-	rc := replayCase{Type: "sequence", Scenario: &trunc, Step: si,
-		Note: fmt.Sprintf("start %d (args %v) is refused (%s); then a start without arguments from the directory it left", si, st.Args, rep.Err)}
+func (c *checker) refusedProbe(rc replayCase, label string, st step, rep reply, before, after map[string][]byte, cur presented) {
+	rc.Note = fmt.Sprintf("%s (args %v) is refused (%s); then a start without arguments from the directory it left", label, st.Args, rep.Err)
 	dir := c.mkdir()
 	defer os.RemoveAll(dir)
 	if err := writeDir(dir, after); err != nil {
@@ -603,23 +611,23 @@ func (c *checker) refusedProbe(sc scenario, si int, st step, rep reply, before, 
 	c.r.Case(fmt.Sprintf("refused|%s|%v", dirText(before), st.Args), true)
 	c.r.Validated(1)
 	c.r.Count("refused_start", argClass(st.Args))
-	c.r.Sample(12, map[string]interface{}{"refused_start": si, "args": st.Args, "error": rep.Err, "next_plain_start": implNext(probe), "persisted": cur})
+	c.r.Sample(12, map[string]interface{}{"refused_start": label, "args": st.Args, "error": rep.Err, "next_plain_start": implNext(probe), "persisted": cur})
 	bRec, aRec := completeRec(before[stateFile]), completeRec(after[stateFile])
 	recChanged := bRec != nil && (aRec == nil || *aRec != *bRec)
 	switch {
 	case !probe.OK:
 		c.r.Violate("refused-start-loses-identity", "impl-oracle",
-			fmt.Sprintf("start %d with arguments %v is refused (%s) — but it has changed the state directory: the next start without arguments fails (%s); the persisted identity cert=%s iat-mode=%s is lost [state file before: %s | after: %s]",
-				si, st.Args, rep.Err, probe.Err, cur.Cert, cur.IAT, before[stateFile], after[stateFile]), rc)
+			fmt.Sprintf("%s with arguments %v is refused (%s) — but it has changed the state directory: the next start without arguments fails (%s); the persisted identity cert=%s iat-mode=%s is lost [state file before: %s | after: %s]",
+				label, st.Args, rep.Err, probe.Err, cur.Cert, cur.IAT, before[stateFile], after[stateFile]), rc)
 	case probe.Cert != cur.Cert:
 		c.r.Violate("refused-start-replaces-identity", "impl-oracle",
-			fmt.Sprintf("start %d with arguments %v is refused (%s) — but the next start without arguments presents cert=%s, the persisted identity was cert=%s", si, st.Args, rep.Err, probe.Cert, cur.Cert), rc)
+			fmt.Sprintf("%s with arguments %v is refused (%s) — but the next start without arguments presents cert=%s, the persisted identity was cert=%s", label, st.Args, rep.Err, probe.Cert, cur.Cert), rc)
 	case probe.IAT != cur.IAT:
 		c.r.Violate("refused-start-changes-iat-mode", "impl-oracle",
-			fmt.Sprintf("start %d with arguments %v is refused (%s) — but the next start without arguments presents iat-mode=%s, the persisted mode was %s", si, st.Args, rep.Err, probe.IAT, cur.IAT), rc)
+			fmt.Sprintf("%s with arguments %v is refused (%s) — but the next start without arguments presents iat-mode=%s, the persisted mode was %s", label, st.Args, rep.Err, probe.IAT, cur.IAT), rc)
 	case recChanged:
 		c.r.Violate("refused-start-rewrites-state-file", "impl-oracle",
-			fmt.Sprintf("start %d with arguments %v is refused (%s) — but the persisted record changed: before %s | after %s", si, st.Args, rep.Err, before[stateFile], after[stateFile]), rc)
+			fmt.Sprintf("%s with arguments %v is refused (%s) — but the persisted record changed: before %s | after %s", label, st.Args, rep.Err, before[stateFile], after[stateFile]), rc)
 	}
 }
 
@@ -1483,6 +1491,178 @@ func iatTransitions(seed uint64) scenario {
 }
 
 // ---------------------------------------------------------------------------------------------
+// several starts inside ONE process (a bridge with several listeners, an in-process restart),
+// over two state directories, mixed with process restarts.  The model is per call: the result of
+// a start is a function of (directory contents, arguments) — there is no process state — so
+// every start of such a history is compared with the model and judged by the same oracles as a
+// start in a process of its own.
+
+type mstep struct {
+	Proc int               `json:"proc"` // consecutive steps with equal Proc run in one helper process
+	Dir  int               `json:"dir"`  // 0 | 1
+	Args map[string]string `json:"args,omitempty"`
+	Seed uint64            `json:"seed,omitempty"` // crypto/rand seed of the process (its first step's)
+}
+
+type multiResult struct {
+	Reply reply             `json:"reply"`
+	Snap  map[string]string `json:"snap"` // directory after the start: name → hex
+}
+
+func parseCanon(text string) []sysOp {
+	var ops []sysOp
+	for _, w := range strings.Fields(text) {
+		p := strings.Split(w, ":")
+		switch {
+		case p[0] == "W" && len(p) == 3:
+			ops = append(ops, sysOp{Kind: "W", Name: p[1], Data: vlib.UnHex(p[2])})
+		case p[0] == "R" && len(p) == 3:
+			ops = append(ops, sysOp{Kind: "R", Name: p[1], Name2: p[2]})
+		case len(p) == 2:
+			ops = append(ops, sysOp{Kind: p[0], Name: p[1]})
+		}
+	}
+	return ops
+}
+
+func (c *checker) multiScenario(hist []mstep) {
+	dirs := [2]string{c.mkdir(), c.mkdir()}
+	defer os.RemoveAll(dirs[0])
+	defer os.RemoveAll(dirs[1])
+	var cur [2]*presented
+	files := [2]map[string][]byte{{}, {}}
+	for i := 0; i < len(hist); {
+		j := i
+		for j < len(hist) && hist[j].Proc == hist[i].Proc {
+			j++
+		}
+		req := request{Cmd: "multi", Seed: hist[i].Seed}
+		for _, m := range hist[i:j] {
+			req.Starts = append(req.Starts, multiStart{Dir: dirs[m.Dir&1], Args: m.Args})
+		}
+		rep, _, err := runHelper(req, false, c.scratch)
+		rcAll := replayCase{Type: "multi", Multi: hist[:j]}
+		if err != nil || len(rep.Multi) != j-i {
+			c.r.Violate("helper-failed", "correspondence", fmt.Sprintf("multi-start helper: %v %s", err, rep.Err), rcAll)
+			return
+		}
+		for k, m := range hist[i:j] {
+			di := m.Dir & 1
+			res := rep.Multi[k]
+			before := files[di]
+			after := map[string][]byte{}
+			for n, h := range res.Snap {
+				after[n] = vlib.UnHex(h)
+			}
+			st := step{Args: m.Args}
+			label := fmt.Sprintf("start %d of the history (directory %d, call %d of %d inside process %d)", i+k, di, k+1, j-i, m.Proc)
+			rc := replayCase{Type: "multi", Multi: hist[:i+k+1], Step: i + k}
+			c.r.Case(fmt.Sprintf("multi|%s|%v|p%d.%d", dirText(before), m.Args, m.Proc, k), k > 0)
+			c.r.Validated(1)
+			c.r.Count("in_process_start", fmt.Sprintf("call-%d-in-process:%s", k+1, argClass(m.Args)))
+			c.r.Sample(22, map[string]interface{}{"multi_start": label, "args": m.Args, "impl": implNext(res.Reply)})
+			// S
+			hadCur := cur[di]
+			cur[di] = c.restartOracle(cur[di], st, res.Reply, label, rc)
+			if res.Reply.OK {
+				c.consistency(rc, fmt.Sprintf("%s (args %v)", label, m.Args), len(before) == 0, st, res.Reply, after)
+			} else if hadCur != nil {
+				c.refusedProbe(rc, label, st, res.Reply, before, after, *hadCur)
+			}
+			// C: the per-call model on the directory as it was before this call
+			privs := []string{}
+			fresh := stateRec{}
+			if r := completeRec(before[stateFile]); r != nil {
+				privs = append(privs, r.Priv)
+			}
+			if r := completeRec(after[stateFile]); r != nil {
+				privs = append(privs, r.Priv)
+				if _, had := before[stateFile]; !had {
+					fresh = *r
+				}
+			}
+			if p, ok := m.Args["private-key"]; ok {
+				privs = append(privs, p)
+			}
+			c.loadModel(before, privs, nil)
+			mrep := c.call("fs.start %s %s %s %s %s %s %s %s", optHex(m.Args, "node-id"), optHex(m.Args, "private-key"),
+				optHex(m.Args, "drbg-seed"), optHex(m.Args, "iat-mode"),
+				vlib.Hex([]byte(fresh.NodeID)), vlib.Hex([]byte(fresh.Priv)), vlib.Hex([]byte(fresh.Pub)), vlib.Hex([]byte(fresh.Seed)))
+			mp := strings.SplitN(mrep, " ; ", 2)
+			if mp[0] != implNext(res.Reply) {
+				c.r.Violate("in-process-start-differs-from-model", "correspondence",
+					fmt.Sprintf("%s, args %v: implementation %s, the model of a start from the same directory contents %s", label, m.Args, implNext(res.Reply), mp[0]), rc)
+			}
+			if len(mp) == 2 {
+				c.loadModel(before, privs, parseCanon(mp[1]))
+				if fin := c.call("fs.final"); fin != dirText(after) {
+					c.r.Violate("in-process-start-leaves-different-directory", "correspondence",
+						fmt.Sprintf("%s, args %v: directory after the call {%s}, model {%s}", label, m.Args, shortOps(dirText(after)), shortOps(fin)), rc)
+				}
+			}
+			files[di] = after
+		}
+		i = j
+	}
+}
+
+func fixedMultiHistories(seed uint64) [][]mstep {
+	x := [3]string{strings.Repeat("1a", 20), strings.Repeat("2b", 32), strings.Repeat("3c", 24)}
+	ex := map[string]string{"node-id": x[0], "private-key": x[1], "drbg-seed": x[2]}
+	iat := func(v string) map[string]string { return map[string]string{"iat-mode": v} }
+	return [][]mstep{
+		// one process, one directory: load, override, plain, explicit identity, plain
+		{{0, 0, nil, seed | 1}, {0, 0, iat("1"), 0}, {0, 0, nil, 0}, {0, 0, ex, 0}, {0, 0, nil, 0}},
+		// one process, two directories interleaved
+		{{0, 0, nil, seed + 2 | 1}, {0, 1, nil, 0}, {0, 0, iat("2"), 0}, {0, 1, nil, 0}, {0, 0, nil, 0}, {0, 1, iat("1"), 0}, {0, 0, nil, 0}, {0, 1, nil, 0}},
+		// mixed: two calls in a process, a new process with three calls, a new process
+		{{0, 0, iat("2"), seed + 4 | 1}, {0, 0, nil, 0}, {1, 0, nil, seed + 6 | 1}, {1, 0, iat("0"), 0}, {1, 0, nil, 0}, {2, 0, nil, seed + 8 | 1}},
+		// a refused call between two good ones, inside one process
+		{{0, 0, nil, seed + 10 | 1}, {0, 0, iat("1"), 0}, {0, 0, iat("7"), 0}, {0, 0, nil, 0}, {0, 0, map[string]string{"node-id": x[0]}, 0}, {0, 0, nil, 0}},
+	}
+}
+
+func randomMultiHistory(rng *vlib.Rng) []mstep {
+	var h []mstep
+	nproc := rng.Range(1, 3)
+	var ids [][3]string
+	for p := 0; p < nproc; p++ {
+		n := rng.Range(2, 5)
+		seed := rng.U64()>>1 | 1
+		for k := 0; k < n; k++ {
+			m := mstep{Proc: p, Dir: 0}
+			if k == 0 {
+				m.Seed = seed
+			}
+			if rng.Intn(3) == 0 {
+				m.Dir = 1
+			}
+			switch c := rng.Intn(10); {
+			case c < 4:
+			case c < 7:
+				m.Args = map[string]string{"iat-mode": strconv.Itoa(rng.Intn(3))}
+			case c < 8:
+				m.Args = map[string]string{"iat-mode": vlib.Pick(rng, []string{"3", "x", "-1"})}
+			default:
+				var id [3]string
+				if len(ids) > 0 && rng.Bool() {
+					id = ids[rng.Intn(len(ids))]
+				} else {
+					id = [3]string{hexOf(rng, 20), hexOf(rng, 32), hexOf(rng, 24)}
+					ids = append(ids, id)
+				}
+				m.Args = map[string]string{"node-id": id[0], "private-key": id[1], "drbg-seed": id[2]}
+				if rng.Bool() {
+					m.Args["iat-mode"] = strconv.Itoa(rng.Intn(3))
+				}
+			}
+			h = append(h, m)
+		}
+	}
+	return h
+}
+
+// ---------------------------------------------------------------------------------------------
 // generators
 
 func hexOf(rng *vlib.Rng, n int) string { return hex.EncodeToString(rng.Bytes(n)) }
@@ -1586,6 +1766,8 @@ func (c *checker) runCase(rc replayCase, rng *vlib.Rng) {
 		}
 	case "fault":
 		c.faultCase(rc)
+	case "multi":
+		c.multiScenario(rc.Multi)
 	case "roundtrip":
 		c.roundTrip(rc)
 	case "malformed":
@@ -1722,6 +1904,14 @@ func main() {
 			st0.Args = map[string]string{"iat-mode": ov}
 		}
 		c.serverScenario(scenario{Kind: "server", Steps: []step{st0, {}, {}}}, nil, rng.Fork())
+	}
+
+	// 1b''. several starts inside one process, two directories, mixed with process restarts
+	for _, h := range fixedMultiHistories(r.Seed*2 + 31) {
+		c.multiScenario(h)
+	}
+	for i, n := 0, r.Scale(8, 80); i < n; i++ {
+		c.multiScenario(randomMultiHistory(rng.Fork()))
 	}
 
 	// 1c. I/O faults: failing / short writes at a dense sample of offsets
